@@ -48,10 +48,16 @@ def _c_float_buffer(node):
 class LayoutFacts(Facts):
     """adds the must-fact ("CBUF", <local name>): the local currently holds a C-contiguous float64 array (killed by any other rebinding)"""
     def bind(self, t, value_node, val, st, stmt):
+        keep_float = False
         if isinstance(t, ast.Name):
+            # arithmetic on a fresh float array yields a fresh float array (true division always does)
+            keep_float = isinstance(value_node, ast.BinOp) and isinstance(value_node.op, (ast.Div, ast.Mult, ast.Add, ast.Sub)) \
+                and isinstance(value_node.left, ast.Name) and ("FLOATCOPY", value_node.left.id) in st["F"]
             st["F"] = frozenset(x for x in st["F"] if x != ("CBUF", t.id))
             st["F"] = frozenset(x for x in st["F"] if x != ("FLOATCOPY", t.id))
         super().bind(t, value_node, val, st, stmt)
+        if keep_float:
+            self.add(st, "FLOATCOPY", t.id)
         if isinstance(t, ast.Name) and _c_float_buffer(value_node):
             self.add(st, "CBUF", t.id)
         if isinstance(t, ast.Name) and isinstance(value_node, ast.Call) and ast.unparse(value_node.func) in ("np.array", "numpy.array") \
